@@ -1,10 +1,31 @@
 import DracoProofs.Octahedron
+import DracoProofs.OctaAngle
 /-
   C07 (integer half) — octahedral coordinates produced by the encoder lie inside the q-bit
   square `[0, max_value_]² = [0, 2^q − 2]²` and are canonical (the unique representative of the
-  direction).  The float half (angle bound) is not part of this file; the float expressions of
-  `FloatVectorToQuantizedOctahedralCoords` enter only through the two rounded integers `i0`, `i1`
-  and one sign bit (an abstract oracle as far as these theorems are concerned).
+  direction).  The float expressions of `FloatVectorToQuantizedOctahedralCoords` enter the
+  integer theorems only through the two rounded integers `i0`, `i1` and one sign bit (an abstract
+  oracle as far as these theorems are concerned).
+
+  Angular bound (slice c08plus), exact arithmetic, `q ≥ 3`:
+  * `angle_bound_partial`  the L∞ grid-distance lemma `(1/2, 1/2, 1)` for the integer vector the
+                           encoder builds from exactly rounded coordinates, `|v|₁ = c`, and the
+                           Lipschitz step `sin²∠(n, v) ≤ 9/(2c²)`, `n·v > 0` — over ℚ, no
+                           square roots, no trigonometry.
+  * `angle_bound_exact`    hence `∠(n, v) = arccos(n·v/(‖n‖‖v‖)) ≤ 3/c = 3·(2/(2^q − 2))`
+                           (reals; `θ ≤ tan θ`).
+  * `octa_fixed_point`     exact arithmetic: `QuantizedOctahedralCoordsToUnitVector` (before its
+                           normalisation; `Octa.octaVecG`, whose `Float32` instance followed by
+                           `normalise32` IS the executable decoder,
+                           `Octa.coordsToUnitVector_eq_generic`) applied to
+                           `IntegerVectorToQuantizedOctahedralCoords v` returns `v / c`.
+  * `angle_bound_exact_decoded`  hence the exactly decoded direction is within
+                           `3·(2/(2^q − 2))` of `n`.
+  Missing for the full statement "angle ≤ 3·(2/(2^q−2)) + 2e-6 for the float code":
+  (b) the `double` roundings of the encoder (the rounded coordinates can differ from `⌊·+1/2⌋` of
+      the exact value at ties) and the `float` roundings of the decoder incl. its normalisation
+      — the `2e-6` allowance, (c) `q = 2` (`c = 1`, bound 3 rad), where `9/(2c²) > 1` and the
+      argument gives nothing.  These remain evaluated per case.
 -/
 namespace Draco
 
@@ -97,5 +118,189 @@ theorem canonicalizeIntVec_abs_sum (q : Nat) (t : OctaT) (hinit : Octa.init q = 
   Octa.canonicalizeIntVec_abs_sum t (by have := (Octa.init_wf hinit).1.2.2.1; omega) v
 
 example : Octa.canonicalizeIntVec ⟨4, 15, 14, 7⟩ (100, -250, -3) = (1, -4, -2) := by decide
+
+/-! ### angular error in exact arithmetic -/
+
+/-- Exact arithmetic (`Octa.exactDoubleOps`: the `double` expressions of
+    `FloatVectorToQuantizedOctahedralCoords` evaluated in ℚ), any `q ≥ 2` with `c ≥ 2`, any
+    non-zero rational vector `n`; `v` = the integer vector handed to
+    `IntegerVectorToQuantizedOctahedralCoords`.  Then
+    * L∞ grid distance: `|c·n_i/|n|₁ − v_i| ≤ 1/2, 1/2, 1` (repair branch included),
+    * `|v|₁ = c`, `n·v > 0`,
+    * Lipschitz step: `(‖n‖²‖v‖² − (n·v)²)·2c² ≤ 9·‖n‖²‖v‖²`, i.e. `sin²∠(n,v) ≤ 9/(2c²)`. -/
+theorem angle_bound_partial (q : Nat) (t : OctaT) (hinit : Octa.init q = some t)
+    (hc2 : 2 ≤ t.center) (n1 n2 n3 : ℚ) (hn : 0 < |n1| + |n2| + |n3|) :
+    let r := @Octa.floatVecRoundG ℚ Octa.exactDoubleOps t.center n1 n2 n3
+    let v := Octa.fixIntVec t r.1 r.2.1 r.2.2
+    let S := |n1| + |n2| + |n3|
+    (|n1 / S * t.center - v.1| ≤ 1/2 ∧ |n2 / S * t.center - v.2.1| ≤ 1/2 ∧
+      |n3 / S * t.center - v.2.2| ≤ 1) ∧
+    iabs v.1 + iabs v.2.1 + iabs v.2.2 = t.center ∧
+    0 < n1 * v.1 + n2 * v.2.1 + n3 * v.2.2 ∧
+    ((n1 ^ 2 + n2 ^ 2 + n3 ^ 2) * ((v.1 : ℚ) ^ 2 + (v.2.1 : ℚ) ^ 2 + (v.2.2 : ℚ) ^ 2)
+        - (n1 * v.1 + n2 * v.2.1 + n3 * v.2.2) ^ 2) * (2 * (t.center : ℚ) ^ 2)
+      ≤ 9 * ((n1 ^ 2 + n2 ^ 2 + n3 ^ 2) * ((v.1 : ℚ) ^ 2 + (v.2.1 : ℚ) ^ 2 + (v.2.2 : ℚ) ^ 2)) := by
+  intro r v S
+  have hwf := (Octa.init_wf hinit).1
+  refine ⟨?_, Octa.angle_bound_rat t hwf hc2 n1 n2 n3 hn⟩
+  exact Octa.grid_distance_exact t hwf n1 n2 n3 hn
+
+/-- the exact encoder expressions at q = 4 (c = 7), n = (1, -2, 1/3): scaled coordinates
+    (3/10, -6/10, 1/10)·7 round to (2, -4) -/
+theorem octa_example_round :
+    @Octa.floatVecRoundG ℚ Octa.exactDoubleOps 7 1 (-2) (1/3) = (2, -4, false) := by
+  rw [Octa.floatVecRoundG_exact _ _ _ _ (by norm_num [abs_of_pos, abs_of_neg])]
+  have e1 : ⌊(1:ℚ) * (1 / (|1| + |-2| + |1/3|)) * ((7:Int):ℚ) + 1/2⌋ = 2 := by
+    rw [Int.floor_eq_iff]; norm_num [abs_of_pos, abs_of_neg]
+  have e2 : ⌊(-2:ℚ) * (1 / (|1| + |-2| + |1/3|)) * ((7:Int):ℚ) + 1/2⌋ = -4 := by
+    rw [Int.floor_eq_iff]; norm_num [abs_of_pos, abs_of_neg]
+  have e3 : decide ((1/3:ℚ) * (1 / (|1| + |-2| + |1/3|)) < ((0:Int):ℚ)) = false := by
+    rw [decide_eq_false_iff_not]; norm_num [abs_of_pos, abs_of_neg]
+  rw [e1, e2, e3]
+
+/-- non-vacuity: q = 4 (c = 7), n = (1, -2, 1/3) -/
+example : (0:ℚ) < 1 * (Octa.fixIntVec ⟨4, 15, 14, 7⟩ 2 (-4) false).1
+    + (-2) * (Octa.fixIntVec ⟨4, 15, 14, 7⟩ 2 (-4) false).2.1
+    + (1/3) * (Octa.fixIntVec ⟨4, 15, 14, 7⟩ 2 (-4) false).2.2 := by
+  have h := (angle_bound_partial 4 ⟨4, 15, 14, 7⟩ (by decide) (by decide) 1 (-2) (1/3)
+    (by norm_num [abs_of_pos, abs_of_neg])).2.2.1
+  simp only [octa_example_round] at h
+  exact h
+
+/-- Exact arithmetic, `q = 3..30`: the angle between a non-zero rational vector `n` and the
+    integer vector `v` chosen by the encoder is at most `3·(2/(2^q − 2))` radians. -/
+theorem angle_bound_exact (q : Nat) (t : OctaT) (hinit : Octa.init q = some t) (hq : 3 ≤ q)
+    (n1 n2 n3 : ℚ) (hn : 0 < |n1| + |n2| + |n3|) :
+    let r := @Octa.floatVecRoundG ℚ Octa.exactDoubleOps t.center n1 n2 n3
+    let v := Octa.fixIntVec t r.1 r.2.1 r.2.2
+    let N : ℝ := ((n1 ^ 2 + n2 ^ 2 + n3 ^ 2 : ℚ) : ℝ)
+    let V : ℝ := (((v.1 : ℚ) ^ 2 + (v.2.1 : ℚ) ^ 2 + (v.2.2 : ℚ) ^ 2 : ℚ) : ℝ)
+    let D : ℝ := ((n1 * v.1 + n2 * v.2.1 + n3 * v.2.2 : ℚ) : ℝ)
+    Real.arccos (D / (Real.sqrt N * Real.sqrt V)) ≤ 3 * (2 / ((2:ℝ) ^ q - 2)) := by
+  intro r v N V D
+  obtain ⟨hcen, hc3⟩ := Octa.init_center hinit
+  have hc3 := hc3 hq
+  have hwf := (Octa.init_wf hinit).1
+  obtain ⟨hsum, hD, hb⟩ := Octa.angle_bound_rat t hwf (by omega) n1 n2 n3 hn
+  have hbound : 3 * (2 / ((2:ℝ) ^ q - 2)) = 3 / (t.center : ℝ) := by
+    have : ((2:ℝ) ^ q - 2) = 2 * (t.center : ℝ) := by
+      have : ((2 * t.center : Int) : ℝ) = (((2:Int) ^ q - 2 : Int) : ℝ) := by rw [hcen]
+      push_cast at this; linarith
+    have hc0 : (t.center : ℝ) ≠ 0 := by
+      have : (0:ℝ) < t.center := by exact_mod_cast (by omega : (0:Int) < t.center)
+      exact ne_of_gt this
+    rw [this]; field_simp
+  rw [hbound]
+  have hNq : (0:ℚ) < n1 ^ 2 + n2 ^ 2 + n3 ^ 2 := by
+    by_contra h
+    have h0 : n1 ^ 2 + n2 ^ 2 + n3 ^ 2 = 0 := le_antisymm (not_lt.mp h) (by positivity)
+    have a1 : n1 = 0 := by nlinarith [sq_nonneg n1, sq_nonneg n2, sq_nonneg n3]
+    have a2 : n2 = 0 := by nlinarith [sq_nonneg n1, sq_nonneg n2, sq_nonneg n3]
+    have a3 : n3 = 0 := by nlinarith [sq_nonneg n1, sq_nonneg n2, sq_nonneg n3]
+    rw [a1, a2, a3] at hn; simp at hn
+  have hVq : (0:ℚ) < (v.1 : ℚ) ^ 2 + (v.2.1 : ℚ) ^ 2 + (v.2.2 : ℚ) ^ 2 := by
+    by_contra h
+    have h0 : (v.1 : ℚ) ^ 2 + (v.2.1 : ℚ) ^ 2 + (v.2.2 : ℚ) ^ 2 = 0 :=
+      le_antisymm (not_lt.mp h) (by positivity)
+    have a1 : (v.1 : ℚ) = 0 := by nlinarith [sq_nonneg (v.1 : ℚ), sq_nonneg (v.2.1 : ℚ), sq_nonneg (v.2.2 : ℚ)]
+    have a2 : (v.2.1 : ℚ) = 0 := by nlinarith [sq_nonneg (v.1 : ℚ), sq_nonneg (v.2.1 : ℚ), sq_nonneg (v.2.2 : ℚ)]
+    have a3 : (v.2.2 : ℚ) = 0 := by nlinarith [sq_nonneg (v.1 : ℚ), sq_nonneg (v.2.1 : ℚ), sq_nonneg (v.2.2 : ℚ)]
+    have b1 : v.1 = 0 := by exact_mod_cast a1
+    have b2 : v.2.1 = 0 := by exact_mod_cast a2
+    have b3 : v.2.2 = 0 := by exact_mod_cast a3
+    change iabs v.1 + iabs v.2.1 + iabs v.2.2 = t.center at hsum
+    rw [b1, b2, b3] at hsum
+    simp [iabs] at hsum; omega
+  have hcs : ((n1 * v.1 + n2 * v.2.1 + n3 * v.2.2 : ℚ)) ^ 2
+      ≤ (n1 ^ 2 + n2 ^ 2 + n3 ^ 2) * ((v.1 : ℚ) ^ 2 + (v.2.1 : ℚ) ^ 2 + (v.2.2 : ℚ) ^ 2) := by
+    nlinarith [sq_nonneg (n1 * v.2.1 - n2 * v.1), sq_nonneg (n1 * v.2.2 - n3 * v.1),
+      sq_nonneg (n2 * v.2.2 - n3 * v.2.1)]
+  have hNr : (0:ℝ) < N := by
+    show (0:ℝ) < ((n1 ^ 2 + n2 ^ 2 + n3 ^ 2 : ℚ) : ℝ)
+    exact_mod_cast hNq
+  have hVr : (0:ℝ) < V := by
+    show (0:ℝ) < (((v.1 : ℚ) ^ 2 + (v.2.1 : ℚ) ^ 2 + (v.2.2 : ℚ) ^ 2 : ℚ) : ℝ)
+    exact_mod_cast hVq
+  have hDr : (0:ℝ) < D := by
+    show (0:ℝ) < ((n1 * v.1 + n2 * v.2.1 + n3 * v.2.2 : ℚ) : ℝ)
+    exact_mod_cast hD
+  have hbr : (N * V - D ^ 2) * (2 * (t.center : ℝ) ^ 2) ≤ 9 * (N * V) := by
+    show (((n1 ^ 2 + n2 ^ 2 + n3 ^ 2 : ℚ) : ℝ)
+        * (((v.1 : ℚ) ^ 2 + (v.2.1 : ℚ) ^ 2 + (v.2.2 : ℚ) ^ 2 : ℚ) : ℝ)
+        - ((n1 * v.1 + n2 * v.2.1 + n3 * v.2.2 : ℚ) : ℝ) ^ 2) * (2 * (t.center : ℝ) ^ 2)
+      ≤ 9 * (((n1 ^ 2 + n2 ^ 2 + n3 ^ 2 : ℚ) : ℝ)
+        * (((v.1 : ℚ) ^ 2 + (v.2.1 : ℚ) ^ 2 + (v.2.2 : ℚ) ^ 2 : ℚ) : ℝ))
+    exact_mod_cast hb
+  have hcsr : D ^ 2 ≤ N * V := by
+    show ((n1 * v.1 + n2 * v.2.1 + n3 * v.2.2 : ℚ) : ℝ) ^ 2
+      ≤ ((n1 ^ 2 + n2 ^ 2 + n3 ^ 2 : ℚ) : ℝ)
+        * (((v.1 : ℚ) ^ 2 + (v.2.1 : ℚ) ^ 2 + (v.2.2 : ℚ) ^ 2 : ℚ) : ℝ)
+    exact_mod_cast hcs
+  exact Octa.arccos_le_of_sin_sq N V D (t.center : ℝ) (by exact_mod_cast hc3) hNr hVr hDr hbr hcsr
+
+/-- non-vacuity: q = 4, n = (1, -2, 1/3) -/
+example : Real.arccos (((1 * 2 + (-2) * (-4) + (1/3) * 1 : ℚ) : ℝ)
+      / (Real.sqrt ((1 ^ 2 + (-2) ^ 2 + (1/3) ^ 2 : ℚ) : ℝ)
+         * Real.sqrt ((((2:Int) : ℚ) ^ 2 + ((-4 : Int) : ℚ) ^ 2 + ((1 : Int) : ℚ) ^ 2 : ℚ) : ℝ)))
+    ≤ 3 * (2 / ((2:ℝ) ^ 4 - 2)) := by
+  have h := angle_bound_exact 4 ⟨4, 15, 14, 7⟩ (by decide) (by decide) 1 (-2) (1/3)
+    (by norm_num [abs_of_pos, abs_of_neg])
+  have ev : Octa.fixIntVec ⟨4, 15, 14, 7⟩ 2 (-4) false = (2, -4, 1) := by decide
+  simp only [octa_example_round, ev] at h
+  exact h
+
+/-- **Fixed point** (exact arithmetic): decoding the octahedral coordinates of an integer vector
+    `v` with `|v|₁ = center_value_` gives `v / center_value_` (the vector that
+    `OctahedralCoordsToUnitVector` then normalises). -/
+theorem octa_fixed_point (q : Nat) (t : OctaT) (hinit : Octa.init q = some t) (v : Int × Int × Int)
+    (hsum : iabs v.1 + iabs v.2.1 + iabs v.2.2 = t.center) :
+    @Octa.octaVecG ℚ Octa.exactOctaDecOps t.maxV (Octa.intVecToCoords t v)
+      = ((v.1 : ℚ) / t.center, (v.2.1 : ℚ) / t.center, (v.2.2 : ℚ) / t.center) :=
+  Octa.octaVecG_exact_fixed_point t (Octa.init_wf hinit).1 v hsum
+
+/-- non-vacuity: q = 4, v = (-3, 0, -4) (coordinates on the boundary, canonicalised) -/
+example : @Octa.octaVecG ℚ Octa.exactOctaDecOps 14 (Octa.intVecToCoords ⟨4, 15, 14, 7⟩ (-3, 0, -4))
+    = ((-3 : ℚ) / 7, 0 / 7, (-4 : ℚ) / 7) := by
+  have := octa_fixed_point 4 ⟨4, 15, 14, 7⟩ (by decide) (-3, 0, -4) (by decide)
+  simpa using this
+
+/-- Exact arithmetic, `q = 3..30`, encoder and decoder: `w` = the vector decoded (before
+    normalisation) from the coordinates the encoder assigns to the non-zero rational vector `n`.
+    The angle between `n` and `w` is at most `3·(2/(2^q − 2))`. -/
+theorem angle_bound_exact_decoded (q : Nat) (t : OctaT) (hinit : Octa.init q = some t) (hq : 3 ≤ q)
+    (n1 n2 n3 : ℚ) (hn : 0 < |n1| + |n2| + |n3|) :
+    let r := @Octa.floatVecRoundG ℚ Octa.exactDoubleOps t.center n1 n2 n3
+    let st := Octa.intVecToCoords t (Octa.fixIntVec t r.1 r.2.1 r.2.2)
+    let w := @Octa.octaVecG ℚ Octa.exactOctaDecOps t.maxV st
+    Real.arccos (((n1 * w.1 + n2 * w.2.1 + n3 * w.2.2 : ℚ) : ℝ)
+        / (Real.sqrt ((n1 ^ 2 + n2 ^ 2 + n3 ^ 2 : ℚ) : ℝ)
+           * Real.sqrt ((w.1 ^ 2 + w.2.1 ^ 2 + w.2.2 ^ 2 : ℚ) : ℝ)))
+      ≤ 3 * (2 / ((2:ℝ) ^ q - 2)) := by
+  intro r st w
+  have hwf := (Octa.init_wf hinit).1
+  obtain ⟨_, hc3⟩ := Octa.init_center hinit
+  have hc3 := hc3 hq
+  obtain ⟨hsum, _, _⟩ := Octa.angle_bound_rat t hwf (by omega) n1 n2 n3 hn
+  have hw : w = _ := octa_fixed_point q t hinit _ hsum
+  have hmain := angle_bound_exact q t hinit hq n1 n2 n3 hn
+  simp only at hmain
+  set v := Octa.fixIntVec t r.1 r.2.1 r.2.2 with hv
+  set c : ℚ := (t.center : ℚ) with hcdef
+  have hc0 : (0:ℚ) < c := by rw [hcdef]; exact_mod_cast (by omega : (0:Int) < t.center)
+  have hcr : (0:ℝ) < (c : ℝ) := by exact_mod_cast hc0
+  -- the argument of arccos is invariant under the scaling by 1/c
+  have e1 : ((n1 * w.1 + n2 * w.2.1 + n3 * w.2.2 : ℚ) : ℝ)
+      = ((n1 * v.1 + n2 * v.2.1 + n3 * v.2.2 : ℚ) : ℝ) / (c : ℝ) := by
+    rw [hw]; push_cast; field_simp
+  have e2 : ((w.1 ^ 2 + w.2.1 ^ 2 + w.2.2 ^ 2 : ℚ) : ℝ)
+      = (((v.1 : ℚ) ^ 2 + (v.2.1 : ℚ) ^ 2 + (v.2.2 : ℚ) ^ 2 : ℚ) : ℝ) / (c : ℝ) ^ 2 := by
+    rw [hw]; push_cast; field_simp
+  rw [e1, e2, Real.sqrt_div' _ (by positivity), Real.sqrt_sq hcr.le]
+  have e3 : ∀ (D a b : ℝ), D / (c : ℝ) / (a * (b / (c : ℝ))) = D / (a * b) := by
+    intro D a b
+    have : (c : ℝ) ≠ 0 := ne_of_gt hcr
+    field_simp
+  rw [e3]
+  exact hmain
 
 end Draco
